@@ -7,28 +7,50 @@
 (* path and given as any one of the three quantities, must leave all three   *)
 (* members of that orbit's triple derived from the SAME update (Kepler III   *)
 (* for the current masses) and must not touch the other orbit.               *)
+(* Masses can change under the orbit (world.set_geometry(radius, mass)):     *)
+(* MoonMass / HostMass.  Each triple carries the mass ids it was derived     *)
+(* with (field m); every update must derive the triple with the CURRENT      *)
+(* masses (UpdateUsesCurrentMasses).  As found, a mass change itself does    *)
+(* not re-derive anything: until the next update the triple is Keplerian for *)
+(* the OLD masses - KeplerCurrentAlways is the expected violation of         *)
+(* OrbitTriple_asfound_mass.cfg (known finding C17-mass-change-stale-triple).*)
 (***************************************************************************)
 EXTENDS Integers, TLC
 
-VARIABLES moon, stellar          \* each: [a |-> id, n |-> id, P |-> id], id = the update (value id) it was derived from
-vars == <<moon, stellar>>
+VARIABLES moon, stellar,         \* each: [a |-> id, n |-> id, P |-> id, m |-> mass ids], id = the update (value id) it was derived from
+          mm, hm                 \* current mass ids of the moon and of the (non-stellar) tidal host
+vars == <<moon, stellar, mm, hm>>
 Vals == 0..2
-T(v) == [a |-> v, n |-> v, P |-> v]
+MassIds == 0..1
+T(v, m) == [a |-> v, n |-> v, P |-> v, m |-> m]
 
-Init == moon = T(0) /\ stellar = T(0)
+Init == mm = 0 /\ hm = 0 /\ moon = T(0, <<0, 0>>) /\ stellar = T(0, <<0>>)
 
 \* orbit.set_state(moon, <kind>=v) | orbit.set_<kind>(moon, v) | moon.<kind> = v | moon.set_state(<kind>=v)
-MoonSet(kind, v, path) == moon' = T(v) /\ UNCHANGED stellar
+MoonSet(kind, v, path) == moon' = T(v, <<mm, hm>>) /\ UNCHANGED <<stellar, mm, hm>>
 \* orbit.set_state(host, <kind>=v, set_stellar_orbit=True) | orbit.set_<kind>(host, v, set_stellar_orbit=True)
-StellarSet(kind, v, path) == stellar' = T(v) /\ UNCHANGED moon
+StellarSet(kind, v, path) == stellar' = T(v, <<hm>>) /\ UNCHANGED <<moon, mm, hm>>
 \* orbit.set_stellar_distance(host | moon, v): "a world shares its stellar distance with its tidal host"
-StellarDistance(v, via) == stellar' = T(v) /\ UNCHANGED moon
+StellarDistance(v, via) == stellar' = T(v, <<hm>>) /\ UNCHANGED <<moon, mm, hm>>
+\* moon.set_geometry(radius, mass id v) / host.set_geometry(radius, mass id v): as found, nothing in the orbit is re-derived
+MoonMass(v) == v # mm /\ mm' = v /\ UNCHANGED <<moon, stellar, hm>>
+HostMass(v) == v # hm /\ hm' = v /\ UNCHANGED <<moon, stellar, mm>>
 
 Next == \/ \E kind \in {"a", "n", "P"}, v \in Vals, path \in {"orbit_set_state", "orbit_setter", "world_prop", "world_set_state"} : MoonSet(kind, v, path)
         \/ \E kind \in {"a", "n", "P"}, v \in Vals, path \in {"orbit_set_state", "orbit_setter"} : StellarSet(kind, v, path)
         \/ \E v \in Vals, via \in {"host", "moon"} : StellarDistance(v, via)
+        \/ \E v \in MassIds : MoonMass(v) \/ HostMass(v)
 Spec == Init /\ [][Next]_vars
 
 C17_Kepler == /\ moon.a = moon.n /\ moon.n = moon.P
               /\ stellar.a = stellar.n /\ stellar.n = stellar.P
+MoonCurrent == moon.m = <<mm, hm>>
+StellarCurrent == stellar.m = <<hm>>
+\* every update of a triple derives it with the masses the worlds have at that moment
+UpdateUsesCurrentMasses == [][/\ (mm' = mm /\ hm' = hm /\ moon' # moon => moon'.m = <<mm', hm'>>)
+                              /\ (mm' = mm /\ hm' = hm /\ stellar' # stellar => stellar'.m = <<hm'>>)]_vars
+\* a mass change touches no stored orbit
+MassChangeStoresNothing == [][(mm' # mm \/ hm' # hm) => moon' = moon /\ stellar' = stellar]_vars
+\* the property as stated ("always ... for the current masses"): expected violation (OrbitTriple_asfound_mass.cfg)
+KeplerCurrentAlways == MoonCurrent /\ StellarCurrent
 =============================================================================
